@@ -221,13 +221,13 @@ class Program:
         if normalise:
             self._recognise_private_renames()
         if normalise:
-            from .inline import _logger_names, normalise_variable_views, normalise_method_aliases, normalise_metadata_temps, normalise_annotated_assignments, normalise_library_spellings, normalise_sort_return, normalise_quantifier_loops, normalise_or_defaults, normalise_null_contexts, normalise_accumulate, normalise_isinstance_unions, normalise_comprehension_fusion, normalise_search_loops, normalise_try_lookups, normalise_display_loops, normalise_setdefault_statements, normalise_unused_enumerate, normalise_enumerated_dicts, normalise_get_locals, normalise_dims_copies, normalise_conditional_elements, normalise_local_generators, normalise_subset_quantifiers, normalise_next_or_raise, normalise_partials, normalise_getters, normalise_comprehension_negations, normalise_display_comprehensions, normalise_quantifier_polarity, normalise_expression_walrus, normalise_get_tests, normalise_starred_maps, normalise_self_aliases, normalise_for_else, normalise_numpy_idioms, normalise_self_conditional, normalise_walrus, normalise_match, normalise_dict_union, normalise_first_match, normalise_generator_functions, normalise_unzip_loops, normalise_accumulators, normalise_conditional_assignments, normalise_generator_arguments, normalise_ifexp, normalise_keys, normalise_suppress, strip_logging
+            from .inline import _logger_names, normalise_narrowing_asserts, normalise_sentinel_lookups, module_sentinels, normalise_variable_views, normalise_method_aliases, normalise_metadata_temps, normalise_annotated_assignments, normalise_library_spellings, normalise_sort_return, normalise_quantifier_loops, normalise_or_defaults, normalise_null_contexts, normalise_accumulate, normalise_isinstance_unions, normalise_comprehension_fusion, normalise_search_loops, normalise_try_lookups, normalise_display_loops, normalise_setdefault_statements, normalise_unused_enumerate, normalise_enumerated_dicts, normalise_get_locals, normalise_dims_copies, normalise_conditional_elements, normalise_local_generators, normalise_subset_quantifiers, normalise_next_or_raise, normalise_partials, normalise_getters, normalise_comprehension_negations, normalise_display_comprehensions, normalise_quantifier_polarity, normalise_expression_walrus, normalise_get_tests, normalise_starred_maps, normalise_self_aliases, normalise_for_else, normalise_numpy_idioms, normalise_self_conditional, normalise_walrus, normalise_match, normalise_dict_union, normalise_first_match, normalise_generator_functions, normalise_unzip_loops, normalise_accumulators, normalise_conditional_assignments, normalise_generator_arguments, normalise_ifexp, normalise_keys, normalise_suppress, strip_logging
             loggers = {m.name: _logger_names(m.tree, m.resolve) for m in self.modules.values()}
             for fi in self.functions.values():
                 if fi.parent is None:
                     self._count('strip_logging', strip_logging(fi.node, loggers.get(fi.module.name, set())))
-                    self._count('normalise_self_aliases', normalise_self_aliases(fi.node))
-                    self._count('normalise_self_aliases', normalise_self_aliases(fi.node))      # (an alias of an alias: `c = self.convention; p = c.polygons`)
+                    self._count('normalise_self_aliases', normalise_self_aliases(fi.node, set(fi.module.imports)))
+                    self._count('normalise_self_aliases', normalise_self_aliases(fi.node, set(fi.module.imports)))      # (an alias of an alias: `c = self.convention; p = c.polygons`)
                     self._count('normalise_variable_views', normalise_variable_views(fi.node))
                     self._count('normalise_method_aliases', normalise_method_aliases(fi.node))
                     self._count('normalise_dims_copies', normalise_dims_copies(fi.node))
@@ -240,6 +240,8 @@ class Program:
                     self._count('normalise_display_comprehensions', normalise_display_comprehensions(fi.node))
                     self._count('normalise_numpy_idioms', normalise_numpy_idioms(fi.node))
                     self._count('normalise_annotated_assignments', normalise_annotated_assignments(fi.node))
+                    self._count('normalise_narrowing_asserts', normalise_narrowing_asserts(fi.node))
+                    self._count('normalise_sentinel_lookups', normalise_sentinel_lookups(fi.node, module_sentinels(fi.module.tree)))
                     self._count('normalise_metadata_temps', normalise_metadata_temps(fi.node))
                     self._count('normalise_library_spellings', normalise_library_spellings(fi.node, fi.module.resolve))
                     self._count('normalise_setdefault_statements', normalise_setdefault_statements(fi.node))
